@@ -89,7 +89,10 @@ func parseValueFromEventKey(key []byte) (string, error) {
 func lookForHeight(conditions []query.Condition) (int64, bool) {
 	for _, c := range conditions {
 		if c.CompositeKey == types.BlockHeightKey && c.Op == query.OpEqual {
-			return c.Operand.(int64), true
+			// the operand of "=" may also be a string or a time
+			if height, ok := c.Operand.(int64); ok {
+				return height, true
+			}
 		}
 	}
 
